@@ -93,8 +93,12 @@ func (c *Constraint) match(v *Version) bool {
 		prerelease = true
 	}
 	// The empty constraint in PyPI does not match dev versions.
-	if c.sys == PyPI && c.str == "" && v.ext.(*pep440Extension).isDev() {
-		return false
+	if c.sys == PyPI && c.str == "" {
+		// The version may come from another system (compare tolerates that), in
+		// which case it has no PEP 440 extension.
+		if ext, ok := v.ext.(*pep440Extension); ok && ext.isDev() {
+			return false
+		}
 	}
 	return c.set.matchVersion(v, prerelease)
 }
